@@ -170,6 +170,7 @@ API_PROPS = {
     "C17": (["C17"], (8, 1500), (16, 40000), "api"),
     "C18": (["C18"], (8, 2500), (16, 60000), "escape"),
     "C01": (["C01"], (16, 1500), (16, 40000), "spec"),
+    "C12": (["C12"], (8, 8000), (16, 150000), "cps"),
 }
 
 def api_single(pat, flags, hay_hex):
@@ -193,7 +194,7 @@ def run_api(ctx):
     known = load_known()
     summary, mism, pv = {}, [], []
     if not any("build failed" in b for b in broken):
-        summary, mism, pv, errs = run_stream_shards(stream, "spec" if stream == "spec" else "api", ctx.seed, shards, n, extra="4" if stream == "spec" else "")
+        summary, mism, pv, errs = run_stream_shards(stream, {"spec": "spec", "cps": "cps"}.get(stream, "api"), ctx.seed, shards, n, extra="4" if stream == "spec" else "")
         for e in errs: broken.append("pipeline: " + e)
     ctx.note("correspondence(api): %s mismatches=%d propviol(all kinds)=%d" % (summary, len(mism), len(pv)))
     mine = [pv_case(l) for l in pv if parse_kv(l).get("prop") in kinds]
